@@ -35,6 +35,8 @@ func runC06(c *core.Ctx) {
 	c.Rule("C06.cache", "A1: InfluxQLNode.getCreateFn returns the node-level cached constructor only when the field kind is unchanged and a constructor is cached; otherwise it determines the constructor for the new kind and stores kind and constructor together, only when one was found (F50: a rejected kind leaves the cache unchanged)")
 	c.Rule("C06.fresh", "A3: every NewGroup builds its receiver from a composite literal / constructor call made in that call (never returns a value kept in a node field)")
 	ruleCopyReset(c, "C06.copyreset")
+	c.Rule("C06.exprcopy", "A6: F114: when an evaluator type keeps an ExecutionState of its own inside the evaluator tree (EvalLambdaNode), expression.CopyReset and Reset build the tree anew from the node instead of sharing it between the per-group copies")
+	c06ExprCopy(c, "C06.exprcopy")
 
 	root := c.P.Pkg("")
 	edge := c.P.Pkg("edge")
